@@ -137,7 +137,15 @@ func verifCanary(label string, cond bool) {}
 //@      (typeis(v, *ua.ReadResponse) ==> readOK(dyn(v, *ua.ReadResponse))) &&
 //@      (typeis(v, *ua.BrowseResponse) ==> browseOK(dyn(v, *ua.BrowseResponse))) &&
 //@      (typeis(v, *ua.BrowseNextResponse) ==> browseNextOK(dyn(v, *ua.BrowseNextResponse))) &&
-//@      (typeis(v, *ua.TranslateBrowsePathsToNodeIDsResponse) ==> tbpOK(dyn(v, *ua.TranslateBrowsePathsToNodeIDsResponse)))
+//@      (typeis(v, *ua.TranslateBrowsePathsToNodeIDsResponse) ==> tbpOK(dyn(v, *ua.TranslateBrowsePathsToNodeIDsResponse))) &&
+//@      (typeis(v, *ua.DeleteSubscriptionsResponse) ==> dyn(v, *ua.DeleteSubscriptionsResponse) != nil) &&
+//@      (typeis(v, *ua.ModifySubscriptionResponse) ==> dyn(v, *ua.ModifySubscriptionResponse) != nil) &&
+//@      (typeis(v, *ua.CreateMonitoredItemsResponse) ==> cmirOK(dyn(v, *ua.CreateMonitoredItemsResponse))) &&
+//@      (typeis(v, *ua.DeleteMonitoredItemsResponse) ==> dyn(v, *ua.DeleteMonitoredItemsResponse) != nil) &&
+//@      (typeis(v, *ua.ModifyMonitoredItemsResponse) ==> mmirOK(dyn(v, *ua.ModifyMonitoredItemsResponse))) &&
+//@      (typeis(v, *ua.SetMonitoringModeResponse) ==> dyn(v, *ua.SetMonitoringModeResponse) != nil) &&
+//@      (typeis(v, *ua.SetTriggeringResponse) ==> dyn(v, *ua.SetTriggeringResponse) != nil) &&
+//@      (typeis(v, *ua.PublishResponse) ==> pubOK(dyn(v, *ua.PublishResponse)))
 
 // safeAssign(t, &p) is `p = t` if the dynamic type of t is the type of p, and an error otherwise
 // (reflection; assumed). T is the type of p at the call site.
@@ -179,7 +187,7 @@ func verifCanary(label string, cond bool) {}
 //@   props C21
 //@   assumed
 //@   params c ctx req h
-//@   assigns allbut Node ua.ReadResponse ua.DataValue ua.Variant ua.BrowseResponse ua.BrowseNextResponse ua.BrowseResult ua.ReferenceDescription ua.ExpandedNodeID ua.TranslateBrowsePathsToNodeIDsResponse ua.BrowsePathResult ua.BrowsePathTarget []*ua.DataValue []*ua.BrowseResult []*ua.ReferenceDescription []*ua.BrowsePathResult []*ua.BrowsePathTarget
+//@   assigns allbut Node Subscription monitoredItem ua.MonitoredItemCreateRequest ua.MonitoredItemCreateResult ua.MonitoredItemModifyRequest ua.MonitoredItemModifyResult ua.ReadResponse ua.DataValue ua.Variant ua.BrowseResponse ua.BrowseNextResponse ua.BrowseResult ua.ReferenceDescription ua.ExpandedNodeID ua.TranslateBrowsePathsToNodeIDsResponse ua.BrowsePathResult ua.BrowsePathTarget []*ua.DataValue []*ua.BrowseResult []*ua.ReferenceDescription []*ua.BrowsePathResult []*ua.BrowsePathTarget []*ua.MonitoredItemModifyRequest []*ua.MonitoredItemCreateRequest map[uint32]*monitoredItem ua.ModifyMonitoredItemsRequest.ItemsToModify ua.ModifyMonitoredItemsRequest.TimestampsToReturn
 //@   calls h nonnil
 //@   callarg h 0 respOK(cbarg)
 //@   ensures h != nil && err == nil ==> ran_h && res_h == nil
@@ -244,3 +252,100 @@ func verifCanary(label string, cond bool) {}
 //@   props C21
 //@   requires n != nil && n.c != nil
 //@   assigns allbut Node
+
+// ---------------------------------------------------------------------------
+// C21, subscriptions: what the response handlers of subscription.go and the publish loop of
+// client_sub.go do with a decoded response.
+// ---------------------------------------------------------------------------
+
+//@ pred cmirOK(r *ua.CreateMonitoredItemsResponse) := r != nil &&
+//@      (forall i int :: { at(r.Results, i) } off(r.Results) <= i && i < off(r.Results) + len(r.Results) ==> at(r.Results, i) != nil)
+//@ pred mmirOK(r *ua.ModifyMonitoredItemsResponse) := r != nil &&
+//@      (forall i int :: { at(r.Results, i) } off(r.Results) <= i && i < off(r.Results) + len(r.Results) ==> at(r.Results, i) != nil)
+//@ pred pubOK(r *ua.PublishResponse) := r != nil && r.NotificationMessage != nil &&
+//@      (forall i int :: { at(r.NotificationMessage.NotificationData, i) } off(r.NotificationMessage.NotificationData) <= i &&
+//@          i < off(r.NotificationMessage.NotificationData) + len(r.NotificationMessage.NotificationData) ==> at(r.NotificationMessage.NotificationData, i) != nil)
+
+// The client's request/response exchange (assumed; its implementation is the secure channel, C18/C22):
+// either an error, or the handler ran once on a well-formed response and returned nil. Nothing of a
+// Subscription or of its item table is written by it.
+//@ func (*Client).Send
+//@   props C21
+//@   assumed
+//@   assigns allbut Subscription monitoredItem ua.MonitoredItemCreateRequest ua.MonitoredItemCreateResult ua.MonitoredItemModifyRequest
+//@   calls h nonnil
+//@   callarg h 0 respOK(cbarg)
+//@   ensures h != nil && err == nil ==> ran_h && res_h == nil
+//@ func (*Client).sendWithTimeout
+//@   props C21
+//@   assumed
+//@   assigns allbut Subscription monitoredItem
+//@   calls h nonnil
+//@   callarg h 0 respOK(cbarg)
+//@   ensures h != nil && err == nil ==> ran_h && res_h == nil
+
+// invariant of a subscription: it has a client and an item table whose entries are complete
+//@ pred subInv(s *Subscription) := s != nil && s.c != nil && s.items != nil &&
+//@      (forall k uint32 :: { in(k, s.items) } in(k, s.items) ==> s.items[k] != nil && s.items[k].req != nil && s.items[k].res != nil)
+
+//@ func (*Subscription).delete
+//@   props C21
+//@   requires subInv(s)
+//@   assigns *
+//@ func (*Subscription).ModifySubscription
+//@   props C21
+//@   requires subInv(s)
+//@   assigns *
+//@ func (*Subscription).Monitor
+//@   props C21
+//@   requires subInv(s)
+//@   requires [caller] forall i int :: { at(items, i) } off(items) <= i && i < off(items) + len(items) ==> at(items, i) != nil
+//@   assigns *
+//@   loop 0 invariant subInv(s) && cmirOK(res) && len(res.Results) == len(items)
+//@   loop 0 invariant forall i int :: { at(items, i) } off(items) <= i && i < off(items) + len(items) ==> at(items, i) != nil
+//@ func (*Subscription).Unmonitor
+//@   props C21
+//@   requires subInv(s)
+//@   assigns *
+//@   loop 0 invariant s != nil && s.items != nil
+//@ func (*Subscription).ModifyMonitoredItems
+//@   props C21
+//@   requires subInv(s)
+//@   requires [caller] forall i int :: { at(items, i) } off(items) <= i && i < off(items) + len(items) ==> at(items, i) != nil
+//@   assigns *
+//@   loop 0 invariant -1 <= rangeindex && rangeindex < len(items)
+//@   loop 0 invariant subInv(s) && (forall i int :: { at(items, i) } off(items) <= i && i < off(items) + len(items) ==> at(items, i) != nil)
+//@   loop 0 invariant err == nil ==> forall i int :: { at(items, i) } off(items) <= i && i <= off(items) + rangeindex ==> in(at(items, i).MonitoredItemID, s.items)
+//@   loop 1 invariant subInv(s)
+//@   loop 1 invariant mmirOK(res)
+//@   loop 1 invariant req != nil && len(req.ItemsToModify) == len(res.Results)
+//@   loop 1 invariant forall i int :: { at(req.ItemsToModify, i) } off(req.ItemsToModify) <= i && i < off(req.ItemsToModify) + len(req.ItemsToModify) ==>
+//@           at(req.ItemsToModify, i) != nil
+//@   loop 1 invariant forall i int :: { at(req.ItemsToModify, i) } off(req.ItemsToModify) <= i && i < off(req.ItemsToModify) + len(req.ItemsToModify) ==>
+//@           in(at(req.ItemsToModify, i).MonitoredItemID, s.items)
+//@ func (*Subscription).SetMonitoringMode
+//@   props C21
+//@   requires subInv(s)
+//@   assigns *
+//@   loop 0 invariant subInv(s)
+//@ func (*Subscription).SetTriggering
+//@   props C21
+//@   requires subInv(s)
+//@   assigns *
+
+// instrumentation (package stats, expvar): no effect on the program heap (assumed)
+//@ func github.com/gopcua/opcua/stats.Subscription
+//@   assumed
+//@   assigns nothing
+//@   ensures result != nil
+//@ func github.com/gopcua/opcua/stats.Client
+//@   assumed
+//@   assigns nothing
+//@   ensures result != nil
+//@ func github.com/gopcua/opcua/stats.Error
+//@   assumed
+//@   assigns nothing
+//@   ensures result != nil
+//@ func github.com/gopcua/opcua/stats.RecordError
+//@   assumed
+//@   assigns nothing
